@@ -1,5 +1,6 @@
 import OH.Props.C01
 import OH.Props.C01E
+import OH.Props.ArithC01
 #print axioms OH.Props.C01.C01_spec_outside
 #print axioms OH.Props.C01.C01_model_outside
 #print axioms OH.Props.C01.C01_bound_irrelevant
@@ -26,3 +27,10 @@ import OH.Props.C01E
 #print axioms OH.Props.C01E.C01_every_parsed_expression_nodated
 #print axioms OH.Props.C01E.C01_every_parsed_expression_plain
 #print axioms OH.Props.C01E.C01_every_parsed_expression_window
+#print axioms OH.Props.ArithC01.easter_eq_model
+#print axioms OH.Props.ArithC01.easter_total
+#print axioms OH.Props.ArithC01.easter_model_of_generated
+#print axioms OH.Props.ArithC01.easter_year
+#print axioms OH.Props.ArithC01.gen_easter_spec
+#print axioms OH.Props.ArithC01.gen_easter_window
+#print axioms OH.Props.ArithC01.gen_easter_none_outside
